@@ -1,11 +1,122 @@
 /-
   Avt.Spec.C12 — oracle of property C12 (decidable predicates evaluated on implementation states;
   the same definitions the theorems in Avt/Props/C12.lean are stated with).
+
+  C12: the outcome of feeding a string does not depend on how it is split across calls.
+
+  `equivChunk a b` is what must agree between two instances that received the same characters
+  from the same start state under different chunkings, for EVERY scrollback limit:
+    * the parser (state and all registers);
+    * every field of the terminal except the dirty flags (a per-call report: `Vt::feed` never calls
+      `changes()`) — size, cursor (col, row, visible), pen, charsets, tabs, insert / origin /
+      auto-wrap / new-line / cursor-keys modes, pending wrap, margins, both saved contexts, the
+      active buffer type, `xtwinops`, the scrollback limit;
+    * of both buffers (active and parked): the view (cells, pens, wrap marks), `cols`, `rows`,
+      `limit`.
+  What may legitimately differ is only how much scrollback has been trimmed so far (`gc` runs once
+  per `feed_str` call, never in `Vt::feed`): `trim_needed`, and the retained scrollback, of which one
+  side must be a suffix of the other (`gc` only ever removes the oldest lines).
+  `equivLines` adds what C12 requires under an unlimited scrollback: the same `lines()` and the same
+  primary scrollback (also while the primary buffer is parked).
+
+  Known finding KF4 (DESIGN.md §7): `Vt::feed` never runs `gc`, so after per-character feeding rows
+  scrolled off the ALTERNATE screen (limit 0) are still in `lines()`; `feed_str` removes them.
+  `kf4 whole perChar` recognises exactly that: everything in `equivChunk` agrees, the alternate screen
+  is active, the parked primary agrees line by line, and only the active alternate buffer's
+  scrollback differs.
 -/
 import Avt.Spec.Base
 
 namespace Avt.Spec.C12
 open Avt Avt.Spec
+
+/-- `y` is a suffix of `x` -/
+def isSuffix (y x : List Line) : Bool :=
+  y.length ≤ x.length && x.drop (x.length - y.length) == y
+
+/-- two retained scrollbacks of the same history: one is a suffix of the other -/
+def sbCompatible (x y : List Line) : Bool := isSuffix x y || isSuffix y x
+
+/-- buffers agree up to the amount of retained scrollback and the lazy-trim flag -/
+def bufEqv (x y : Buffer) : Bool :=
+  x.view == y.view && x.cols == y.cols && x.rows == y.rows && x.limit == y.limit
+    && sbCompatible x.sb y.sb
+
+/-- every terminal field except the dirty flags (only their number must agree) and the two buffers -/
+def scalarsEq (a b : Terminal) : Bool :=
+  a.cols == b.cols && a.rows == b.rows && a.activeBufferType == b.activeBufferType
+    && a.scrollbackLimit == b.scrollbackLimit && a.cursor == b.cursor && a.pen == b.pen
+    && a.charsets == b.charsets && a.activeCharset == b.activeCharset && a.tabs == b.tabs
+    && a.insertMode == b.insertMode && a.originMode == b.originMode
+    && a.autoWrapMode == b.autoWrapMode && a.newLineMode == b.newLineMode
+    && a.cursorKeysMode == b.cursorKeysMode && a.pendingWrap == b.pendingWrap
+    && a.topMargin == b.topMargin && a.bottomMargin == b.bottomMargin
+    && a.savedCtx == b.savedCtx && a.alternateSavedCtx == b.alternateSavedCtx
+    && a.xtwinops == b.xtwinops && a.dirtyLines.length == b.dirtyLines.length
+
+def termEqv (a b : Terminal) : Bool :=
+  scalarsEq a b && bufEqv a.buffer b.buffer && bufEqv a.otherBuffer b.otherBuffer
+
+/-- same visible screen, cursor, modes, parser, parked buffer — for every scrollback limit -/
+def equivChunk (a b : Vt) : Bool := a.parser == b.parser && termEqv a.terminal b.terminal
+
+/-- additionally the same `lines()` and the same primary scrollback — required when the
+    scrollback is unlimited -/
+def equivLines (a b : Vt) : Bool :=
+  equivChunk a b && a.lines == b.lines
+    && a.terminal.primaryBuffer.sb == b.terminal.primaryBuffer.sb
+
+/-- C13's statement for the alternate screen (`feed_str` leaves no scrollback there): used as a
+    hypothesis by the `lines` clause of the C12 theorems while the alternate screen is showing -/
+def altClean (v : Vt) : Bool :=
+  v.terminal.activeBufferType != .alternate || v.terminal.buffer.sb.isEmpty
+
+/-- classifier of known finding KF4 (`whole` was fed through `feed_str`, `perChar` through `Vt::feed`) -/
+def kf4 (whole perChar : Vt) : Bool :=
+  equivChunk whole perChar
+    && whole.terminal.activeBufferType == .alternate
+    && whole.terminal.otherBuffer.sb == perChar.terminal.otherBuffer.sb
+    && whole.terminal.buffer.sb != perChar.terminal.buffer.sb
+
+/-- first component in which two states differ (diagnostics only) -/
+def firstDiff (a b : Vt) : String :=
+  let s := a.terminal
+  let t := b.terminal
+  if a.parser != b.parser then "parser"
+  else if (s.cols, s.rows) != (t.cols, t.rows) then "size"
+  else if s.cursor != t.cursor then "cursor"
+  else if s.pendingWrap != t.pendingWrap then "pending-wrap"
+  else if s.activeBufferType != t.activeBufferType then "active-buffer-type"
+  else if s.buffer.view != t.buffer.view then "view"
+  else if s.pen != t.pen then "pen"
+  else if s.charsets != t.charsets || s.activeCharset != t.activeCharset then "charsets"
+  else if s.tabs != t.tabs then "tabs"
+  else if (s.insertMode, s.originMode, s.autoWrapMode, s.newLineMode)
+       != (t.insertMode, t.originMode, t.autoWrapMode, t.newLineMode) then "modes"
+  else if s.cursorKeysMode != t.cursorKeysMode then "cursor-keys"
+  else if (s.topMargin, s.bottomMargin) != (t.topMargin, t.bottomMargin) then "margins"
+  else if s.savedCtx != t.savedCtx || s.alternateSavedCtx != t.alternateSavedCtx then "saved-context"
+  else if !scalarsEq s t then "scrollback-limit/xtwinops/dirty-length"
+  else if !bufEqv s.buffer t.buffer then "active-buffer(geometry/limit/scrollback-not-a-suffix)"
+  else if !bufEqv s.otherBuffer t.otherBuffer then "parked-buffer"
+  else if a.lines != b.lines then "lines"
+  else if s.primaryBuffer.sb != t.primaryBuffer.sb then "parked-primary-scrollback"
+  else "none"
+
+/-- two `feed_str` chunkings of the same input -/
+def checkChunked (who : String) (whole other : Inst) : Verdict :=
+  let unlimited := whole.st.terminal.scrollbackLimit.isNone
+  let ok := if unlimited then equivLines whole.st other.st else equivChunk whole.st other.st
+  check s!"C12:{who}:{firstDiff whole.st other.st}" (whole.history != other.history) ok
+
+/-- whole `feed_str` vs. per-character `Vt::feed` -/
+def checkPerChar (whole pc : Inst) : Verdict :=
+  let unlimited := whole.st.terminal.scrollbackLimit.isNone
+  if !equivChunk whole.st pc.st then .fail s!"C12:feed-per-char:{firstDiff whole.st pc.st}"
+  else if !unlimited then .pass true
+  else if equivLines whole.st pc.st then .pass true
+  else if kf4 whole.st pc.st then .fail "KF4:per-char-feed-keeps-alternate-scrollback"
+  else .fail s!"C12:feed-per-char:{firstDiff whole.st pc.st}"
 
 def checkStep (_ev : StepEv) : List Verdict := []
 
@@ -13,7 +124,17 @@ def checkNew (_cols _rows : Nat) (_lim : Option Nat) (_st : Vt) : List Verdict :
 
 def checkParserStep (_prev : Parser) (_c : Nat) (_next : Parser) (_fn : String) : List Verdict := []
 
-def checkDirective (_name : String) (_args : List String) (_inst : String → Option Inst)
-    (_tcOut : Nat → List (List Nat)) : List Verdict × List (Nat × Inst) := ([], [])
+/-- `X C12 k0 k1 k2 k3`: k0 fed whole, k1 in random pieces (`feed_str`), k2 per character through
+    `Vt::feed`, k3 per character through `feed_str`; all from the same start state. -/
+def checkDirective (name : String) (args : List String) (inst : String → Option Inst)
+    (_tcOut : Nat → List (List Nat)) : List Verdict × List (Nat × Inst) :=
+  match name, args with
+  | "C12", [k0, k1, k2, k3] =>
+    match inst k0, inst k1, inst k2, inst k3 with
+    | some i0, some i1, some i2, some i3 =>
+      if i0.dead || i1.dead || i2.dead || i3.dead then ([.pass false], [])
+      else ([checkChunked "random-split" i0 i1, checkPerChar i0 i2, checkChunked "feed_str-per-char" i0 i3], [])
+    | _, _, _, _ => ([.pass false], [])
+  | _, _ => ([], [])
 
 end Avt.Spec.C12
